@@ -22,7 +22,7 @@ impl Check for C13 {
     fn cases(&self, tier: Tier) -> u64 {
         match tier {
             Tier::Quick => 100_000,
-            Tier::Thorough => 800_000,
+            Tier::Thorough => 2_000_000,
         }
     }
     fn langs(&self) -> Vec<&'static str> {
